@@ -44,12 +44,11 @@ Record behaviour := mkBehaviour {
   validate_unit_first : bool;      (* append{Range,Sampled}Dimension check the unit BEFORE creating the group *)
   validate_frame_first : bool;     (* createDataFrameDimension checks that the frame is in the block BEFORE creating *)
   reject_nan : bool;               (* comparisons written so that NaN fails: !(x > 0), !(a <= b) *)
-  ro_attr_guard : bool;            (* setAttr on an existing attribute refuses on a read-only file before H5Awrite *)
   ro_delete_throws : bool          (* H5Group::removeGroup checks the result of H5Gunlink *)
 }.
 
-Definition code_today : behaviour := mkBehaviour false false false false false false false false.
-Definition repaired : behaviour := mkBehaviour true true true true true true true true.
+Definition code_today : behaviour := mkBehaviour false false false false false false false.
+Definition repaired : behaviour := mkBehaviour true true true true true true true.
 
 (** SET BY THE COORDINATOR: [code_today] while the defects are open, [repaired] once the fix: commits landed *)
 Definition current_behaviour : behaviour := code_today.
@@ -136,21 +135,20 @@ Record state := mkState {
   a_ty : dtype;
   a_rank : nat;
   frames : list frame;          (* the data frames of the array's block, by ordinal *)
-  ro : bool;                    (* file opened ReadOnly *)
-  snap : option dmap            (* read-only session: the descriptors as they are on disk *)
+  ro : bool                     (* file opened ReadOnly *)
 }.
 
 Definition with_dims (s : state) (m : dmap) : state :=
-  mkState m (a_label s) (a_unit s) (a_data s) (a_ty s) (a_rank s) (frames s) (ro s) (snap s).
+  mkState m (a_label s) (a_unit s) (a_data s) (a_ty s) (a_rank s) (frames s) (ro s).
 Definition with_label (s : state) (l : option string) : state :=
-  mkState (dims s) l (a_unit s) (a_data s) (a_ty s) (a_rank s) (frames s) (ro s) (snap s).
+  mkState (dims s) l (a_unit s) (a_data s) (a_ty s) (a_rank s) (frames s) (ro s).
 Definition with_unit (s : state) (u : option string) : state :=
-  mkState (dims s) (a_label s) u (a_data s) (a_ty s) (a_rank s) (frames s) (ro s) (snap s).
+  mkState (dims s) (a_label s) u (a_data s) (a_ty s) (a_rank s) (frames s) (ro s).
 Definition with_data (s : state) (d : list V) : state :=
-  mkState (dims s) (a_label s) (a_unit s) d (a_ty s) (a_rank s) (frames s) (ro s) (snap s).
+  mkState (dims s) (a_label s) (a_unit s) d (a_ty s) (a_rank s) (frames s) (ro s).
 
 Definition dinit (t : dtype) (rank : nat) (len : nat) (fs : list frame) : state :=
-  mkState [] None None (repeat (NDArr.zero_of t) len) t rank fs false None.
+  mkState [] None None (repeat (NDArr.zero_of t) len) t rank fs false.
 
 Fixpoint lookup (k : Z) (m : dmap) : option dimdesc :=
   match m with
@@ -244,7 +242,7 @@ Definition frame_of (fs : list frame) (fo : option nat) : res frame :=
   end.
 
 Definition nth_col (fr : frame) (c : Z) : option (string * string * dtype) :=
-  if c <? 0 then None else nth_error (fr_cols fr) (Z.to_nat c).
+  if (c <? 0) || (zlen (fr_cols fr) <=? c) then None else nth_error (fr_cols fr) (Z.to_nat c).
 
 Definition pick_col (ci col : option Z) : option Z := match col with Some c => Some c | None => ci end.
 
@@ -457,10 +455,6 @@ Definition wr (s : state) (s' : state) : R := if ro s then (s, Err E_H5) else (s
 (** remove an attribute / dataset: nothing to do (and no error, even read-only) when it is absent *)
 Definition rm {A} (s : state) (cur : option A) (s' : state) : R :=
   match cur with None => (s, Ok ADone) | Some _ => wr s s' end.
-(** overwrite a double attribute: on a read-only file H5Awrite fails AFTER it replaced the cached value *)
-Definition wr_dbl (b : behaviour) (s : state) (existed : bool) (s' : state) : R :=
-  if ro s then (if existed && negb (ro_attr_guard b) then (s', Err E_H5) else (s, Err E_H5))         (* SWITCH *)
-  else (s', Ok ADone).
 
 Definition s_label (s : state) (i : Z) (l : option string) : R :=
   with_dim s i KSampled (fun d => match d with
@@ -484,14 +478,14 @@ Definition s_unit (s : state) (i : Z) (u : option string) : R :=
 Definition s_interval (b : behaviour) (s : state) (i : Z) (x : F64) : R :=
   with_dim s i KSampled (fun d => match d with
     | DSampled _ off u l =>
-        if negb (interval_ok b x) then (s, Err E_Runtime) else wr_dbl b s true (set_dim s i (DSampled x off u l))
+        if negb (interval_ok b x) then (s, Err E_Runtime) else wr s (set_dim s i (DSampled x off u l))
     | _ => (s, Err E_Incompatible) end).
 
-Definition s_offset (b : behaviour) (s : state) (i : Z) (o : option F64) : R :=
+Definition s_offset (s : state) (i : Z) (o : option F64) : R :=
   with_dim s i KSampled (fun d => match d with
     | DSampled x cur u l =>
         match o with
-        | Some v => wr_dbl b s (opt_is_some cur) (set_dim s i (DSampled x (Some v) u l))
+        | Some v => wr s (set_dim s i (DSampled x (Some v) u l))
         | None => rm s cur (set_dim s i (DSampled x None u l))
         end
     | _ => (s, Err E_Incompatible) end).
@@ -624,10 +618,9 @@ Definition arr_data (s : state) (v : list F64) : R :=
   | UB w => (s, UB w)
   end.
 
-(** close; open: a read-only session forgets what only its cache held *)
+(** close; open: everything observed here lives in the file *)
 Definition reopen (s : state) (r : bool) : R :=
-  let m := match snap s with Some d => d | None => dims s end in
-  (mkState m (a_label s) (a_unit s) (a_data s) (a_ty s) (a_rank s) (frames s) r (if r then Some m else None), Ok ADone).
+  (mkState (dims s) (a_label s) (a_unit s) (a_data s) (a_ty s) (a_rank s) (frames s) r, Ok ADone).
 
 Definition get_dim (s : state) (i : Z) : R :=
   (s, Ok (AKind (match lookup i (dims s) with Some d => Some (kind_of d, i) | None => None end))).
@@ -657,7 +650,7 @@ Definition dstep (b : behaviour) (o : op) (s : state) : R :=
   | SLabel i l => s_label s i l
   | SUnit i u => s_unit s i u
   | SInterval i x => s_interval b s i x
-  | SOffset i x => s_offset b s i x
+  | SOffset i x => s_offset s i x
   | TLabels i l => t_labels s i l
   | TLabel i l => t_label s i l
   | RTicks i t => r_ticks b s i t
@@ -709,7 +702,7 @@ Definition q_data_dbl (s : sstate) : list F64 := map (to_dbl (q_ty s)) (q_data s
 
 (** descriptor number i (1-based) *)
 Definition s_get (i : Z) (l : list dimdesc) : option dimdesc :=
-  if 1 <=? i then nth_error l (Z.to_nat (i - 1)) else None.
+  if (1 <=? i) && (i <=? zlen l) then nth_error l (Z.to_nat (i - 1)) else None.
 Fixpoint set_nth {A} (n : nat) (x : A) (l : list A) : list A :=
   match l, n with
   | [], _ => []
@@ -717,7 +710,7 @@ Fixpoint set_nth {A} (n : nat) (x : A) (l : list A) : list A :=
   | y :: r, S k => y :: set_nth k x r
   end.
 Definition s_set (i : Z) (d : dimdesc) (l : list dimdesc) : list dimdesc :=
-  if 1 <=? i then set_nth (Z.to_nat (i - 1)) d l else l.
+  if (1 <=? i) && (i <=? zlen l) then set_nth (Z.to_nat (i - 1)) d l else l.
 
 (** legality of the values, as the property states it *)
 Definition legal_ticks (t : list F64) : bool := ascending t.
@@ -825,8 +818,8 @@ Definition sp_step (o : op) (s : sstate) : sstate * sres :=
   | AppendFrame f =>
       match s_fref_cols s f with Some _ => s_append_frame s f None | None => (s, SReject) end
   | DeleteDims =>
-      if lempty (q_dims s) then (s, SOk (ABool true)) else
-      if q_ro s then (s, SReject) else (s_with_dims s [], SOk (ABool true))
+      if q_ro s then (if lempty (q_dims s) then (s, SOk (ABool true)) else (s, SReject))   (* nothing to delete / refused *)
+      else (s_with_dims s [], SOk (ABool true))
   | Count => (s, SOk (ACount (s_count s)))
   | GetDim i => (s, SOk (AKind (match s_get i (q_dims s) with Some d => Some (kind_of d, i) | None => None end)))
   | Dims => (s, SOk (ADims (map (fun p => (fst p, kind_of (snd p))) (combine (zrange (s_count s)) (q_dims s)))))
